@@ -101,6 +101,7 @@ type bSite struct {
 	Targets string // "" = all three named
 	Form    string // "" | var | assign
 	Tag     string // coordinates
+	Bare    bool   // the site is written without any string literal (no arguments; the results are printed as they are)
 }
 
 func (s bSite) tag() string {
@@ -206,7 +207,9 @@ func siteSource(s bSite, k int, indent string, needID *bool) string {
 		default:
 			lines = append(lines, l+" := "+call)
 		}
-		if named[0] {
+		if named[0] && s.Bare {
+			lines = append(lines, "print("+names[0]+")")
+		} else if named[0] {
 			lines = append(lines, `print("[" + `+names[0]+` + "]")`)
 		}
 		if named[2] {
@@ -238,7 +241,19 @@ func (p bProg) source() string {
 	if needID {
 		src = "func id(s string) string {\n\treturn s\n}\n\n"
 	}
+	if p.bare() {
+		return src + body.String() // (not a single string literal in the whole program)
+	}
 	return src + body.String() + "print(\"done\")\n"
+}
+
+func (p bProg) bare() bool {
+	for _, s := range p.Sites {
+		if !s.Bare {
+			return false
+		}
+	}
+	return true
 }
 
 // expect is the reference: stdout and the program starts in order, per program name.
@@ -270,12 +285,17 @@ func (p bProg) expect() (stdout string, starts map[string][][]string, captures i
 		}
 		c := Case{Targets: s.Targets}
 		_, named := c.targetNames()
-		if named[0] {
+		if named[0] && s.Bare {
+			stdout += strings.TrimSuffix(data, "\n") + "\n"
+		} else if named[0] {
 			stdout += "[" + strings.TrimSuffix(data, "\n") + "]\n"
 		}
 		if named[2] {
 			stdout += fmt.Sprint(status) + "\n"
 		}
+	}
+	if p.bare() {
+		return stdout, starts, captures, ""
 	}
 	return stdout + "done\n", starts, captures, ""
 }
@@ -605,6 +625,18 @@ func batchPrograms(thorough bool) []bProg {
 			out = append(out, bProg{Family: "targets", Shape: "func", Reps: 2, Sites: []bSite{t}})
 			out = append(out, bProg{Family: "targets", Shape: "loop", Reps: 2, Sites: []bSite{t}})
 			out = append(out, bProg{Family: "targets", Shape: "top", Sites: []bSite{A[1], t, A[3]}})
+		}
+	}
+	// (b-N) programs without a single string literal: chains of 1..3 argument-less stages (two and three lines of
+	// output from length 2 on), captured and uncaptured, alone / twice in a row / in a loop / in a function called
+	// twice - whatever a helper needs must not depend on another statement having defined it
+	for L := 1; L <= 3; L++ {
+		for _, m := range modes {
+			bs := bSite{Stages: make([][]Arg, L), Mode: m, Bare: true, Tag: fmt.Sprintf("no-string-literal chain=%d mode=%s", L, m)}
+			out = append(out, bProg{Family: "bare", Shape: "top", Sites: []bSite{bs}})
+			out = append(out, bProg{Family: "bare", Shape: "top", Sites: []bSite{bs, bs}})
+			out = append(out, bProg{Family: "bare", Shape: "loop", Reps: 2, Sites: []bSite{bs}})
+			out = append(out, bProg{Family: "bare", Shape: "func", Reps: 2, Sites: []bSite{bs}})
 		}
 	}
 	return out
